@@ -92,17 +92,21 @@ def python_bytes_to_unicode(
             # UTF-8 byte-order mark
             return 'utf-8'
 
-        first_two_lines = re.match(br'(?:[^\r\n]*(?:\r\n|\r|\n)){0,2}', source).group(0)
-        possible_encoding = re.search(br"coding[=:]\s*([-\w.]+)",
-                                      first_two_lines)
-        if possible_encoding:
-            e = possible_encoding.group(1)
-            if not isinstance(e, str):
-                e = str(e, 'ascii', 'replace')
-            return e
-        else:
-            # the default if nothing else has been set -> PEP 263
-            return encoding
+        # The declaration has to be a comment on the first or second line.
+        # The second line is only looked at if the first one is empty or a
+        # comment as well.
+        for line in re.split(br'\r\n|\r|\n', source, maxsplit=2)[:2]:
+            possible_encoding = re.match(br"[ \t\f]*#.*?coding[=:][ \t]*([-\w.]+)",
+                                         line)
+            if possible_encoding:
+                e = possible_encoding.group(1)
+                if not isinstance(e, str):
+                    e = str(e, 'ascii', 'replace')
+                return e
+            if not re.match(br'[ \t\f]*(?:#.*)?$', line):
+                break
+        # the default if nothing else has been set -> PEP 263
+        return encoding
 
     if isinstance(source, str):
         # only cast str/bytes
